@@ -155,9 +155,42 @@ func (valdec mapDecoder) decodeMap(dec *Decoder, p interface{}) {
 				break
 			}
 		}
+		if k := valdec.kt.Kind(); k == reflect.Interface || k == reflect.Struct || k == reflect.Array {
+			// a struct or array key is comparable as a type, but not as a value when one of its
+			// interface fields holds a list or a map
+			if key := reflect.ValueOf(valdec.kt.UnsafeIndirect(kp)); !hashableValue(key) {
+				if dec.Error == nil {
+					dec.Error = DecodeError("hprose/io: a " + key.Type().String() + " that holds a list or a map can not be a map key")
+				}
+				break
+			}
+		}
 		valdec.t.UnsafeSetIndex(mp, kp, vp)
 	}
 	dec.Skip()
+}
+
+// hashableValue reports whether v can be used as a map key without a run-time panic.
+func hashableValue(v reflect.Value) bool {
+	switch v.Kind() {
+	case reflect.Slice, reflect.Map, reflect.Func:
+		return false
+	case reflect.Interface:
+		return v.IsNil() || hashableValue(v.Elem())
+	case reflect.Struct:
+		for i := 0; i < v.NumField(); i++ {
+			if !hashableValue(v.Field(i)) {
+				return false
+			}
+		}
+	case reflect.Array:
+		for i := 0; i < v.Len(); i++ {
+			if !hashableValue(v.Index(i)) {
+				return false
+			}
+		}
+	}
+	return true
 }
 
 func (valdec mapDecoder) decodeObjectAsMap(dec *Decoder, p interface{}, tag byte) {
